@@ -90,6 +90,118 @@ theorem block_options_cleared (rec : Rec) (env : Env) (d : BlockDef) (mt : Match
   wp_go'
   all_goals rfl
 
+/-! ### Every rule that writes a tag hands it to the injector first -/
+
+/-- the pending block options are the same (scratch relation for the opening part of a delimited block) -/
+def KeepOpts (s s' : Session) : Prop := s'.opts = s.opts
+
+instance : IsPre KeepOpts := ⟨fun _ => rfl, fun h1 h2 => h2.trans h1⟩
+
+@[frame] theorem pres_keepOpts_of_frame {α} {act : M α} (h : Pres Frame act) : Pres KeepOpts act = True :=
+  eq_true (fun s a s' hr => by obtain ⟨l, v, rfl⟩ := h s a s' hr; rfl)
+
+theorem NoPending.frame {s s' : Session} (h : NoPending s) (f : Frame s s') : NoPending s' := by
+  obtain ⟨l, v, rfl⟩ := f; exact h
+
+/-- **A line block that writes anything has consumed the pending attributes**: whichever line rule matches (header,
+    macro line, any redefinition of a rule's replacement), text that reaches the writer went through the injector
+    first, and nothing is pending afterwards. -/
+theorem line_block_consumes (rec : Rec) (env : Env) (allowed : List Str) (defs : List LineDef) (r : Reader) (w : Writer)
+    (s : Session) :
+    wp (lineblocksGo rec env allowed defs r w) (fun res s' => res.2.2 ≠ w → NoPending s') s := by
+  induction defs generalizing r s with
+  | nil => unfold lineblocksGo; wp_go'; all_goals (rename_i h; exact (h rfl).elim)
+  | cons d rest ih =>
+    unfold lineblocksGo
+    repeat (any_goals (first
+      | exact ih _ _
+      | (refine wp_mono (ih _ _) ?_; intro _ _ _)
+      | (refine wp_mono (inject_consumes _ _ (by rename_i h; simpa using h)) ?_; intro _ _ _)
+      | wp_step
+      | wp_skip_call))
+    all_goals first
+      | (intro h; exact (h rfl).elim)
+      | (intro _; assumption)
+      | assumption
+      | (rename_i h; exact (h rfl).elim)
+
+/-- every list definition of the source has non-empty list and item opening tags: `renderList` and `renderListItem`
+    hand them to the injector (`inject_consumes`), so a list takes the pending attributes on its first tag -/
+theorem list_open_tags_nonempty : ∀ d ∈ Gen.listDefs, d.listOpenTag ≠ [] ∧ d.itemOpenTag ≠ [] := by decide +kernel
+
+/-- **The first tag of a list consumes the pending attributes.** -/
+theorem list_consumes (rec : Rec) (env : Env) (fuel : Nat) (item : ItemInfo) (r : Reader) (w : Writer)
+    (hd : item.listdef ∈ Gen.listDefs) :
+    ∃ rest : Str → M (Option ItemInfo × Reader × Writer),
+      renderList rec env (fuel + 1) item r w =
+        (do modify fun s => { s with listIds := s.listIds ++ [item.id] }
+            let tag ← injectHtmlAttributes item.listdef.listOpenTag
+            modify fun s => { s with opts := {} }
+            rest tag) ∧
+      item.listdef.listOpenTag ≠ [] :=
+  ⟨fun tag => renderListLoop rec env fuel item r (w.write tag), by rw [renderList], (list_open_tags_nonempty _ hd).1⟩
+
+theorem blockExpand_container (d : BlockDef) (s : Session) :
+    wp (blockExpand d) (fun e s' => s' = s ∧ e.container = (d.expand.merge s.opts).container) s := by
+  unfold blockExpand
+  wp_go'
+  all_goals exact ⟨rfl, rfl⟩
+
+theorem container_false {d : BlockDef} {e : Expand} {s s2 : Session}
+    (he : e.container = (d.expand.merge s2.opts).container) (ho : s.opts.container = none)
+    (hd : d.expand.container ≠ some true) (hk : KeepOpts s s2) : (e.container == some true) = true → False := by
+  have : s2.opts = s.opts := hk
+  intro h
+  rw [he, Expand.merge, this, ho] at h
+  simp at h
+  exact hd h
+
+set_option maxHeartbeats 1600000 in
+/-- **A delimited block that writes anything has consumed the pending attributes** (blocks that are not containers:
+    the content of a container is a document of its own and may end in a Block Attributes line, which then stays
+    pending for the block after the container, as it would after any other block).  `d` is any definition - default
+    or redefined - with a non-empty opening tag, other than the HTML block rule (which injects into its first line
+    instead); no `+container` option is pending. -/
+theorem delimited_block_consumes (rec : Rec) (env : Env) (hs : ∀ x, Pres Frame (rec.spans x))
+    (d : BlockDef) (mt : Match) (r : Reader) (w : Writer) (s : Session)
+    (hd : d.expand.container ≠ some true) (ho : s.opts.container = none)
+    (ht : d.openTag ≠ []) (hh : d.name ≠ "html".toList) :
+    wp (renderBlockBody rec env d mt r w) (fun res s' => res.2 ≠ w → NoPending s') s := by
+  have hr := replaceInline_frame rec env hs
+  have hhtml : (d.name == "html".toList) = false := by simpa using hh
+  have hcur : KeepOpts s s := rfl
+  unfold renderBlockBody
+  simp only [hhtml, Bool.false_eq_true, if_false]
+  repeat (any_goals (first
+    | (refine wp_mono (inject_consumes _ _ ht) ?_; intro _ s1 hnp; have hf := Frame.refl s1)
+    | (refine wp_mono (blockExpand_container d _) ?_; rintro e s2 ⟨rfl, he⟩
+       have hcf : (e.container == some true) = false := by
+         cases h : (e.container == some true)
+         · rfl
+         · exact (container_false he ho hd (by assumption) h).elim
+       simp only [hcf, Bool.false_and, Bool.false_eq_true, if_false])
+    | wp_step
+    | (refine wp_ite ?_ ?_ <;> intro _)
+    | wp_skip_call))
+  all_goals first
+    | (intro h; exact (h rfl).elim)
+    | (rename_i h; exact (h rfl).elim)
+    | (intro _; exact NoPending.frame ‹_› ‹_›)
+    | exact NoPending.frame ‹_› ‹_›
+
+
+/-- ... for the model's own renderers at every fuel -/
+theorem delimited_block_consumes_mk (env : Env) (fuel : Nat) (d : BlockDef) (mt : Match) (r : Reader) (w : Writer)
+    (s : Session) (hd : d.expand.container ≠ some true) (ho : s.opts.container = none)
+    (ht : d.openTag ≠ []) (hh : d.name ≠ "html".toList) :
+    wp (renderBlockBody (mkRec env fuel) env d mt r w) (fun res s' => res.2 ≠ w → NoPending s') s :=
+  delimited_block_consumes (mkRec env fuel) env (mkRec_spec env fuel).1 d mt r w s hd ho ht hh
+
+/-- Not vacuous: the default definitions (regenerated from the source) that meet the hypotheses. -/
+example : (Gen.blockDefaultDefs.filter fun d =>
+      d.expand.container != some true && d.openTag != [] && d.name != "html".toList).map (·.name) =
+    ["code".toList, "indented".toList, "quote-paragraph".toList, "paragraph".toList] := by decide +kernel
+
 /-- Non-vacuity and the full sequence on concrete documents (evaluated in the kernel). -/
 example :
     (match (apiRender ⟨fun _ _ => .error⟩ 30 ".cls #i \"color:red\"\n\nfirst\n\nsecond".toList {}).run Session.uninit with
